@@ -74,6 +74,7 @@ type pipe struct {
 	getIdx   int
 	failGet  int
 	failUpd  bool
+	pops     [][]*v1.Pod
 	pods     []*v1.Pod
 	podsErr  bool
 	ug       *usageGetter
@@ -154,7 +155,7 @@ func (p *pipe) start(ratio int64) {
 	}
 	pol := extend.NewExtendResourceForVerif(p.cfg, getPods, p.cfg.GetNode, nil, p.q, p.ug, int(ratio))
 	p.factory = &framework.EventQueueFactory{Queues: map[string]*framework.EventQueue{}}
-	p.calc = noderesources.NewCalculatorForVerif(pol, p.factory, p.q, p.cfg.GetNode)
+	p.calc = noderesources.NewCalculatorForVerif(pol, p.factory, p.q, p.cfg.GetNode, int(ratio))
 	p.eq = p.factory.EventQueue(string(framework.NodeResourcesEventName)).GetQueue()
 	// the real constructor: registered extend policy, config getters, real evictor
 	p.reporter = oversubscription.NewReporter(p.cfg, nil, nil)
@@ -163,13 +164,14 @@ func (p *pipe) start(ratio int64) {
 func runPipeline(in []int64) []int64 {
 	r := &rd{t: in}
 	ratio := r.z()
-	ptoks := r.pods()
+	ptoks := r.pops()
 	nt := r.node()
 	nops := r.n()
 	type op struct {
 		kind       int64
 		b1, b2     bool
 		z1, z2, z3 int64
+		z4         int64
 		has        bool
 		list       []int64
 	}
@@ -179,6 +181,7 @@ func runPipeline(in []int64) []int64 {
 		switch o.kind {
 		case 1:
 			o.b1, o.b2, o.z1, o.z2, o.z3 = r.b(), r.b(), r.z(), r.z(), r.z()
+			o.z4 = r.z()
 		case 2:
 			o.z1 = r.z()
 		case 3:
@@ -221,8 +224,12 @@ func runPipeline(in []int64) []int64 {
 		setExt(node, apis.GetExtendResourceMemory(), nt.xm, resource.BinarySI)
 	}
 	p := &pipe{ug: &usageGetter{}}
-	for _, t := range ptoks {
-		p.pods = append(p.pods, t.build())
+	for _, ps := range ptoks {
+		built := []*v1.Pod{}
+		for _, t := range ps {
+			built = append(built, t.build())
+		}
+		p.pops = append(p.pops, built)
 	}
 	p.client = fakeclientset.NewSimpleClientset(node)
 	p.client.Fake.Resources = []*metav1.APIResourceList{{GroupVersion: "v1",
@@ -258,6 +265,7 @@ func runPipeline(in []int64) []int64 {
 				p.failGet = 1
 			}
 			p.podsErr = o.b2
+			p.pods = popAt(p.pops, o.z4)
 			setPolicy(o.z1)
 			p.ug.cpu, p.ug.mem = o.z2, o.z3
 			p.calc.Sample()
@@ -381,7 +389,7 @@ func lawsPipeline(in, got []int64, law func(lsel int, lin []int64, sig string)) 
 	r := &rd{t: in}
 	g := &rd{t: got}
 	ratio := r.z()
-	r.pods()
+	r.pops()
 	nt := r.node()
 	nops := r.n()
 	rmax, amaxc, amaxm := ratio, nt.acpu, nt.amem
@@ -440,9 +448,14 @@ func lawsPipeline(in, got []int64, law func(lsel int, lin []int64, sig string)) 
 			r.z()
 			r.z()
 			r.z()
+			r.z()
 			untouched(bl)
 		case 2:
 			fail := r.z()
+			if ev != nil {
+				// every emitted event against the node's CURRENT allocatable and ratio
+				law(104, cat([]int64{ratio, acpu, amem}, ev), "")
+			}
 			switch {
 			case !handled || fail == 2 || !labelOn(bl):
 				untouched(bl)
